@@ -28,12 +28,47 @@ type World struct {
 	NOps     int
 	Mark     bool // emit inv/ack markers into the disk trace
 	Pending  bool // unstable data not yet flushed
+	FreshB, FreshI uint64 // free counts of the freshly formatted file system
 }
 
 func NewWorld(img *vdisk.Image) *World {
 	w := &World{Disk: vdisk.New(img), Vars: fsx.NewVars(), Model: reffs.New(), Unstable: true, Probe: fsx.DefaultProbe}
 	w.Srv = nfs.MakeNfs(w.Disk)
+	w.FreshB, w.FreshI = w.FreeCounts()
 	return w
+}
+
+// DeleteAll removes everything below the root through the API (post-order walk of the model).
+func (w *World) DeleteAll() *reffs.Mismatch {
+	var walk func(o *reffs.Obj) *reffs.Mismatch
+	walk = func(o *reffs.Obj) *reffs.Mismatch {
+		var names []string
+		for n := range o.Children {
+			names = append(names, n)
+		}
+		sort.Strings(names)
+		for _, n := range names {
+			c := w.Model.Objs[o.Children[n]]
+			k := "REMOVE"
+			if c.Kind == reffs.DIR {
+				if m := walk(c); m != nil {
+					return m
+				}
+				k = "RMDIR"
+			}
+			if _, _, m := w.Do(fsx.Op{K: k, H: "raw:" + o.FH, N: n}); m != nil {
+				return m
+			}
+		}
+		return nil
+	}
+	m := walk(w.Model.Objs[w.Model.Root])
+	for k := range w.Vars.Live {
+		if k != "root" {
+			w.Vars.Kill(k)
+		}
+	}
+	return m
 }
 
 // MkfsImage formats a disk of the given size with the real code and returns
@@ -112,6 +147,9 @@ func (w *World) Do(o fsx.Op) (r fsx.Reply, implFail bool, mis *reffs.Mismatch) {
 		return
 	case "FLUSH":
 		w.Flush()
+		return
+	case "DELETEALL":
+		mis = w.DeleteAll()
 		return
 	}
 	h, _ := w.resolve(o.H)
